@@ -4,7 +4,7 @@ CONSTANTS
   Sizes = {202, 302, 203, 303, 402, 403, 502, 503, 404}
   Cells = {11, 23}
   Halos = {99, 0, 1, 2}
-  ModeSet = {202, 402, 204, 404, 602, 302, 203, 1212, 1202}
+  ModeSet = {202, 402, 204, 404, 602, 302, 203, 303, 503, 1212, 1202}
   NZs = {3}
   LevelLists = "mid"
   Tabs = {1}
